@@ -72,6 +72,8 @@ def make_sched(kind, arg, rnd):
         return Sched([], [1 << 20] * arg + ["wb"])
     if kind == "sizes":         # cyclic pattern of sizes
         return Sched(arg, [max(1, x) for x in arg], cycle=True)
+    if kind == "wbsizes":       # a would-block before every small piece: every message boundary is hit
+        return Sched(["wb"] + [x for y in arg for x in (y, "wb")][:-1], [1 << 20], cycle=True)
     if kind == "rand":
         pool = [1, 2, 3, 4, 5, 6, 7, 16, 100, 1000, 4096, "wb", "wb"]
         return Sched([rnd.choice(pool) for _ in range(4000)], [rnd.choice(pool) for _ in range(4000)], cycle=True)
@@ -253,6 +255,30 @@ def scenario_run(sc_id, f, sched, mitm, seed, big=20000):
             st, tc, ts = run2(_read_gen(p.c, None, 3), p.s.writeAsync(b"abc"))
             outcomes.append(("w3", st, tc.out.describe(), ts.out.describe()))
             data["c"] += bytes(tc.out.value or b"")
+        # the server ends the TLS session but keeps the socket (closeSocket=False); the client answers the
+        # close_notify and at once starts a new session on the same connection, so that its close_notify and its
+        # new ClientHello can reach the server in one piece; then the second session is closed for good
+        p.c.closeSocket = p.s.closeSocket = False
+        ts_close = Task("s", _close_gen(p.s), p.ssock)
+        ts_close.evlog = logs["s"]
+        run_tasks([ts_close], p.pipes, max_steps=400000)
+        tc_read = Task("c", _read_gen(p.c, None, 1), p.csock)
+        tc_read.evlog = logs["c"]
+        run_tasks([tc_read], p.pipes, max_steps=400000)
+        cgen2, sgen2 = sc.gens()
+        tc_hs = Task("c", cgen2, p.csock)
+        tc_hs.evlog = logs["c"]
+        run_tasks([tc_hs], p.pipes, max_steps=400000)
+        run_tasks([ts_close], p.pipes, max_steps=400000)
+        outcomes.append(("tls-close", ts_close.out.describe(), tc_read.out.describe(), bool(p.s.closed)))
+        ts_hs = Task("s", sgen2, p.ssock)
+        ts_hs.evlog = logs["s"]
+        st = run_tasks([tc_hs, ts_hs], p.pipes, max_steps=400000)
+        outcomes.append(("hs2", st, tc_hs.out.describe(), ts_hs.out.describe()))
+        if tc_hs.out.ok and ts_hs.out.ok:
+            st, tc, ts = run2(p.c.writeAsync(b"second session"), _read_gen(p.s, None, 14))
+            outcomes.append(("w4", st, tc.out.describe(), ts.out.describe(), bytes(ts.out.value or b"").decode("latin1")))
+        p.c.closeSocket = p.s.closeSocket = True
         st, tc, ts = run2(_close_gen(p.c), _read_gen(p.s, None, 1))
         outcomes.append(("close", st, tc.out.describe(), ts.out.describe(), bytes(ts.out.value or b"").hex(), bool(p.s.closed)))
         data_ok = data["s"] == msg1 and data["c"][:big] == msg2
@@ -272,7 +298,7 @@ def _case(job):
     signal.alarm(120)
     try:
         # byte-at-a-time style schedules get a smaller bulk payload (the trace has one event per socket call)
-        small = sched[0] == "one" or (sched[0] == "sizes" and max(sched[1]) < 100)
+        small = sched[0] in ("one", "wbsizes") or (sched[0] == "sizes" and max(sched[1]) < 100)
         big = 1500 if small else 20000
         ref = scenario_run(sc_id, f, ("none", None), "none", seed, big)
         run = scenario_run(sc_id, f, sched, mitm, seed, big)
@@ -340,11 +366,12 @@ def run(tier):
              F(3, "ecdhe_rsa", ticket=True, resume="ticket"), F(3, "srp_sha"), F(0, "dhe_rsa"), F(4, "tls13", resume="psk", tickets13=1),
              F(3, "rsa", resume="id"), F(2, "dh_anon"), F(4, "tls13", reqCert="cert")]
     if tier == "quick":
-        flavs = flavs[:6]
+        flavs = flavs[:6] + [flavs[-1]]
     rnd = random.Random(repr((env.SEED, "c14")))
     jobs = []
     for si, f in enumerate(flavs):
-        scheds = [("one", None), ("wbalt", None), ("sizes", [1, 4, 5]), ("sizes", [4, 1, 6, 3]), ("sizes", [5, 16383, 2, 16389]),
+        scheds = [("one", None), ("wbalt", None), ("wbsizes", [7]), ("wbsizes", [3, 100]), ("sizes", [1, 4, 5]), ("sizes", [4, 1, 6, 3]),
+                  ("sizes", [5, 16383, 2, 16389]),
                   ("rand", 1), ("rand", 2), ("rand", 3)]
         nwb = 12 if tier == "quick" else 60
         scheds += [("wbat", i) for i in range(nwb)]
